@@ -1479,6 +1479,14 @@ func (x *Exec) typeExpr(e Expr, env *SpecEnv) (types.Type, error) {
 	var obj types.Object
 	switch t := e.(type) {
 	case *EIdent:
+		if strings.HasPrefix(t.Name, "slice_") {
+			// slice_T: the type []T
+			et, err := x.typeExpr(&EIdent{t.Name[6:]}, env)
+			if err != nil {
+				return nil, err
+			}
+			return types.NewSlice(et), nil
+		}
 		if strings.HasPrefix(t.Name, "ptr_") {
 			ptr = true
 			t = &EIdent{t.Name[4:]}
